@@ -16,7 +16,7 @@ class FileNotFoundError(Exception):
 def _get_first_existing_path(leaf, dirs):
     for directory in dirs:
         path = os.path.join(directory, leaf)
-        if os.path.exists(path):
+        if os.path.isfile(path):
             return path
 
 
